@@ -171,17 +171,21 @@ def check(model: Model, run: Run) -> None:
     # update_cache really stores / update_cache_withdraw really removes
     uc = model.func(CACHE + '.update_cache')
     ucw = model.func(CACHE + '.update_cache_withdraw')
-    st = [n for n in walk_no_nested(uc.node) if isinstance(n, ast.Assign) and isinstance(n.targets[0], ast.Subscript) and '_seen' in norm(n.targets[0]) and dotted(n.value) == 'route']
-    run.check(len(st) == 1 and 'route.index()' in norm(uc.node), uc.qualname, 'stores route under route.index()', uc.loc(), 'cache must be keyed by the route index')
-    pp = [n for n in walk_no_nested(ucw.node) if isinstance(n, ast.Call) and isinstance(n.func, ast.Attribute) and n.func.attr == 'pop' and '_seen' in norm(n.func.value)]
-    run.check(len(pp) == 1 and '_make_index(nlri)' in norm(ucw.node), ucw.qualname, 'pops _make_index(nlri)', ucw.loc(), 'withdraw must remove the entry of that NLRI')
+    ucl, uwl = Loc(model, uc), Loc(model, ucw)
+    rp = uc.node.args.args[1].arg if len(uc.node.args.args) > 1 else '?'
+    st = [n for n in walk_no_nested(uc.node) if isinstance(n, ast.Assign) and isinstance(n.targets[0], ast.Subscript) and '_seen' in ucl.expand(n.targets[0].value) and dotted(n.value) == rp and ucl.expand(n.targets[0].slice) == '%s.index()' % rp]
+    run.check(len(st) == 1, uc.qualname, 'stores route under route.index()', uc.loc(), 'cache must be keyed by the route index')
+    np_ = ucw.node.args.args[1].arg if len(ucw.node.args.args) > 1 else '?'
+    pp = [n for n in walk_no_nested(ucw.node) if isinstance(n, ast.Call) and isinstance(n.func, ast.Attribute) and n.func.attr == 'pop' and 'self._seen' in uwl.expand(n.func.value) and n.args and uwl.expand(n.args[0]) == 'self._make_index(%s)' % np_]
+    dl = [n for n in walk_no_nested(ucw.node) if isinstance(n, ast.Delete) and any(isinstance(t, ast.Subscript) and 'self._seen' in uwl.expand(t.value) and uwl.expand(t.slice) == 'self._make_index(%s)' % np_ for t in n.targets)]
+    run.check(len(pp) + len(dl) == 1, ucw.qualname, 'removes the entry keyed _make_index(nlri) from the cache', ucw.loc(), 'withdraw must remove the entry of that NLRI')
 
     # ------------------------------------------------------------------ R3 / R4 on updates()
     upd = model.func(RIB + '.updates')
     run.analysed(upd)
     cfg = CFG(upd.node)
     yields = sorted((n for n in walk_no_nested(upd.node) if isinstance(n, ast.Yield)), key=lambda y: y.lineno)
-    if len(yields) < 8:
+    if len(yields) < 4:
         run.cannot('only %d yields in updates()' % len(yields))
         return
     snap: dict[str, str] = {}
